@@ -68,7 +68,7 @@ from sqlglot.schema import MappingSchema  # noqa: E402
 
 SEEDS_QUICK = ["0", "1", "12345"]
 SEEDS_THOROUGH = ["0", "1", "2", "12345", "987654321"]
-DIALECTS6 = ["", "bigquery", "duckdb", "mysql", "postgres", "snowflake"]
+DIALECTS6 = ["", "bigquery", "duckdb", "mysql", "postgres", "snowflake", "athena", "trino"]
 TARGETS4 = ["spark", "tsql", "oracle", "clickhouse"]
 REUSE_DIALECTS_QUICK = ["", "bigquery", "presto", "duckdb", "mysql", "snowflake", "athena", "tsql", "postgres", "spark", "hive", "oracle",
                         "clickhouse", "trino", "redshift", "sqlite", "risingwave"]
@@ -143,6 +143,12 @@ LINEAGE_QUERIES = [
 ]
 
 EXTRA_STATEMENTS = [
+    # order / process-state sensitive constructs: modifiers collected from a set, a keyword registered while a clause is parsed
+    "SELECT 1 UNION SELECT 2 ORDER BY 1 LIMIT 1 OFFSET 2",
+    "SELECT prior a FROM t",
+    "SELECT a FROM t START WITH a = 1 CONNECT BY PRIOR a = b",
+    "SELECT a FROM t CONNECT BY PRIOR a = (",
+    "SELECT JSON_EXTRACT(j, '$.a[*].b'), JSON_EXTRACT(j, '$.order-id') FROM t",
     "SELECT * FROM UNNEST(x) AS (a)",
     "SELECT * FROM UNNEST(x) AS (a), UNNEST(y) AS (b)",
     "FROM t |> SELECT a",
